@@ -24,6 +24,7 @@ EXPLANATION = (
     "the trailing shape of its array after len(inputs) batch dimensions. R06.5: a dimension parameter read from an op (axis/dim) is "
     "normalised modulo the rank before it is compared with dimension indices, in every branch of its canonicalisation."
     " Added since: R06.3 follows the dtype of every Tensor/Number built by a ground eager rule for a class of ops back to find_domain; R06.6 a Slice's stop reaches construction clamped to dtype."
+    ' Round 4: R06.7 (= R01.11) rules for parametrised ops mention their op instance; R06.8 constant sizes in the find_domain rule of the cast op only for dtypes with that many values; R06.9 (= R04.4) a distributed substitution reaches every operand that mentions a key.'
 )
 ASSUMPTIONS = [
     "values/shapes actually returned by op implementations on arrays are not decided (runtime)",
